@@ -15,7 +15,7 @@ PLAIN_PY = "/venv/bin/python"
 
 def _env():
     env = dict(os.environ)
-    env["PYTHONPATH"] = ROOT + os.pathsep + "/repo/lib"
+    env["PYTHONPATH"] = ROOT + os.pathsep + os.environ.get("VERIF_REPO_LIB", "/repo/lib")
     env["PYTHONHASHSEED"] = "0"
     env["PYTHONDONTWRITEBYTECODE"] = "1"
     env.setdefault("PYTHON_DEBIAN_VERIF", "1")
